@@ -6,7 +6,7 @@ import os
 import shutil
 import time
 
-from vcommon import (Infra, BUILD, build_harness, copy_specs, log, monitor_report, run, scratch_dir, tlc,
+from vcommon import (Infra, drive, BUILD, build_harness, copy_specs, log, monitor_report, run, scratch_dir, tlc,
                      tlc_errors, tlc_stats, tlc_violations, coverage_zero_actions)
 
 PROPS = ["C05", "C06", "C07", "C08", "C09", "C10"]
@@ -80,9 +80,7 @@ def compute(tier, seed):
         des = design(tier, work)
         wpbin = build_harness("wp")
         out = os.path.join(work, "run")
-        rc, txt, secs = run([wpbin, "-out", out, "-tier", tier, "-seed", str(seed)], timeout=3000, check=False)
-        if rc != 0:
-            raise Infra("wp harness failed (%d): %s" % (rc, txt[-3000:]))
+        txt, secs = drive([wpbin, "-out", out, "-tier", tier, "-seed", str(seed)], work, "writepath", timeout=3000)
         summary = json.load(open(os.path.join(out, "summary.json")))
         programs = json.load(open(os.path.join(out, "programs.json")))
         byt = {p["trace"]: p for p in programs}
@@ -113,6 +111,12 @@ def compute(tier, seed):
                              "sig": {"pred": v["p"], "program": prog["name"].split("+")[0]},
                              "program": prog, "reproduced": v["p"] in again.get(v["t"], set()),
                              "events": [e for e in events.get(v["t"], []) if e["seq"] <= v["seq"] + 5][-120:]})
+        # structural conformance: the recorded traces must be behaviours of WritePath.tla (drift is reported, not judged)
+        import wptrace
+        conf = wptrace.validate(work, os.path.join(out, "programs.json"), os.path.join(out, "traces.ndjson"),
+                                TRACE_SAMPLE[tier], seed)
+        if conf["errors"] and not conf["accepted"]:
+            raise Infra("trace validation could not run: %s" % conf["errors"][:2])
         samples = [byt[t]["program"] for t in sorted(byt)[:400:57]]
         fams = {}
         for p in programs:
@@ -120,11 +124,14 @@ def compute(tier, seed):
             fams[k] = fams.get(k, 0) + 1
         return {"design": des, "impl": {"traces": summary["traces"], "events": rep["events"], "unsettled": summary["unsettled"],
                                         "infeasible": summary["infeasible"], "stdio_bytes": summary["stdio_bytes"],
-                                        "by_family": fams, "monitor_secs": round(msecs, 1), "harness_secs": round(secs, 1)},
+                                        "by_family": fams, "monitor_secs": round(msecs, 1), "harness_secs": round(secs, 1),
+                                        "conformance": conf},
                 "violations": viol, "samples": samples, "wall_s": round(time.time() - t0, 1)}
     finally:
         shutil.rmtree(work, ignore_errors=True)
 
+
+TRACE_SAMPLE = {"quick": 96, "thorough": 2000}
 
 LEVEL_TEXT = {
     "C05": "exactly-once answering",
@@ -169,6 +176,10 @@ def evidence(pid, tier, res):
         "impl_traces_total": impl["traces"], "impl_events": impl["events"],
         "impl_traces_by_program_family": fams,
         "unsettled_traces": impl["unsettled"], "infeasible_schedules": impl["infeasible"],
+        "structurally_accepted": impl["conformance"]["accepted"], "structurally_validated": impl["conformance"]["validated"],
+        "eligible_for_structural_validation": impl["conformance"]["eligible"],
+        "drift_traces": impl["conformance"]["rejected"][:10], "trace_validation_errors": impl["conformance"]["errors"][:5],
+        "trace_validation_sample": impl["conformance"]["sample_trace"],
         "summary": "%d design states, %d real-engine traces judged" % (des["states"], traces),
     }
     assumptions = [
@@ -176,5 +187,7 @@ def evidence(pid, tier, res):
         "verdicts come only from WritePathMonitor.tla over histories recorded from the real engine; acknowledgements "
         "and visibility are observed at quiescent points detected from goroutine states",
         "fail-stop fault model: an injected store error means the call had no effect",
+        "structural acceptance (WritePathTrace.tla) covers the programs inside the specification's abstraction (one row per batch, one "
+        "partition, row-count trigger, failures at create/close/update); a late sender-side hook is moved before the consumer-side hook it fed",
     ]
     return "model_checking", coverage, assumptions
